@@ -254,7 +254,8 @@ def gen(prop: str, rng: random.Random, tier: str) -> Dict[str, Any]:
         x = rng.random()
         s = rng.getrandbits(31)
         if x < 0.72:
-            ops.append({"op": "mutate", "pick": rng.random(), "explicit": rng.random() < 0.3, "delta": rng.choice([1, 4, 8, 16, 32]), "seed": s})
+            ops.append({"op": "mutate", "pick": rng.random(), "explicit": rng.random() < 0.3, "delta": rng.choice([1, 4, 8, 16, 32]), "seed": s,
+                        "inplace": rng.random() < 0.25})  # mutate the live network itself (no clone in between), as a population that is mutated but not re-selected does
         elif x < 0.82:
             ops.append({"op": "rebuild"})
         elif x < 0.9:
@@ -446,8 +447,11 @@ def _run(ctx: kernel.Ctx, prop: str, case: Dict[str, Any], loc: Dict[str, Any]) 
             arch_before = _arch(m)
             cnt_before = counts(m)
             params_before = {n_: p.detach().clone() for n_, p in m.named_parameters()}
-            m2 = m.clone()
-            if not c3:
+            inplace = bool(op.get("inplace"))
+            m2 = m if inplace else m.clone()
+            if inplace:
+                ctx.probe("mutated_in_place")
+            if not c3 and not inplace:
                 m2.eval()
                 with torch.no_grad():
                     if not same_output(out_before, forward(m2, probes[1], decl)):
@@ -477,7 +481,9 @@ def _run(ctx: kernel.Ctx, prop: str, case: Dict[str, Any], loc: Dict[str, Any]) 
             changed = arch_after != arch_before
             when = f"op {oi} {name}({kwargs})"
             # tree-shaped history: the network the mutated copy was cloned from is still alive and must not have noticed anything
-            if _arch(m) != arch_before:
+            if inplace:
+                pass
+            elif _arch(m) != arch_before:
                 ctx.report(f"{prop}/parent_disturbed", f"{when} on a clone changed the architecture description of the network it was cloned from", **loc)
             elif c3:
                 rebuild(m, f"{when} on a clone; the network it was cloned from")
@@ -515,7 +521,8 @@ def _run(ctx: kernel.Ctx, prop: str, case: Dict[str, Any], loc: Dict[str, Any]) 
                 if applied is not None and applied != name:
                     ctx.probe("fallback_method_applied")
                 # companion network follows the returned mutation dict, as Mutations._apply_arch_mutation does for critics
-                if comp is not None and applied is not None:
+                # (the follow-the-dict protocol is the one of Mutations, which always mutates a fresh clone: not applied to in-place steps)
+                if comp is not None and applied is not None and not inplace:
                     comp2 = comp.clone()
                     if applied in comp2.mutation_methods:
                         seed_all(op["seed"])
